@@ -218,8 +218,8 @@ static void prepare_matrix(Subject& S, const MatCL& A, const std::string& desc)
     for (int i = 0; i < n; i++) v[i] = i + 1; S.starts.push_back(v);               // 1: ramp (generic)
     S.starts.push_back(Qr.col(0) + Qr.col(1));                                     // 2: two-dimensional invariant subspace
     S.starts.push_back(Qr.col(n - 1));                                             // 3: eigenvector
-    v.setOnes(); S.starts.push_back(v);                                            // 4: ones
-    for (int i = 0; i < n; i++) v[i] = (i % 2 ? -1 : 1); S.starts.push_back(v);    // 5: alternating
+    v.setOnes(); v *= CL(1e15L); S.starts.push_back(v);                            // 4: ones, un-normalized (norm ~1e15)
+    for (int i = 0; i < n; i++) v[i] = CL(LD(i % 2 ? -1 : 1) * 1e-15L); S.starts.push_back(v);  // 5: alternating, tiny norm
     for (int i = 1; i < n; i++) { v.setZero(); v[i] = 1; S.starts.push_back(v); }  // e_i
     for (int i = 0; i + 1 < n; i++) S.starts.push_back(Qr.col(i));                 // the other eigenvectors
     S.starts.push_back(Qr.col(0) + Qr.col(n - 1));
